@@ -27,7 +27,7 @@ MIN_FUNCTIONS = 3
 PATTERNS = {
     "FLOAT_RE": r'^-?[0-9][0-9_]*\.[0-9][0-9_]*',
     "INTEGER_RE": r'^-?[0-9][0-9_]*',
-    "STRING_RE": r'^"(\\"|[^"])*("|\z)',
+    "STRING_RE": (r'^"(\\"|[^"])*("|\z)', r'^"(\\.|[^"])*("|\z)'),
     "SYMBOL_RE": r'^[a-zA-Z_][a-zA-Z0-9_]*',
 }
 
@@ -217,7 +217,7 @@ def regex_specs(u):
         m = re.search(r"static\s+ref\s+%s\s*:\s*Regex\s*=\s*Regex::new\(r#?\"(.*?)\"#?\)\.unwrap\(\)" % name, src.text)
         if not m:
             raise ExtractError("regex %s not found in lex.rs" % name)
-        if m.group(1) != want:
+        if m.group(1) not in (want if isinstance(want, tuple) else (want,)):
             raise ExtractError("regex %s is now %r; the assumed reading was written for %r" % (name, m.group(1), want))
         extra = "fb_not_nl(rm_str(&r->Some_0))" if name == "STRING_RE" else "no_nl(s, 0, rm_end(&r->Some_0) as int)"
         out.append("""
